@@ -3,7 +3,7 @@ Model: lean/RedisGoModel/Exec/Hash.lean (on Ds/HashSel.lean); theorems: lean/Red
 tie: exec engine (server.Manager.ExecCommand + VerifDump hook).  HRANDFIELD and HINCRBYFLOAT are judged in checker mode."""
 import random
 
-from .. import core, execgen_hash, execsuite, families
+from .. import core, execgen_hash, execsuite, families, concsuite
 
 
 def run(R, ctx):
@@ -17,6 +17,11 @@ def run(R, ctx):
              "HRANDFIELD with no/positive/negative/extreme counts and WITHVALUES) interleaved with SET/DEL/EXPIRE/PERSIST/TTL/TYPE/EXISTS/RENAME "
              "on the same keys; fields and values from a binary alphabet with the empty string, numbers, extreme integers and floats; refused-command scenarios followed by a full dump (a refused command changes nothing); the int64 boundary grid: every pair (stored value, increment) of 11 edge values through HINCRBY")
 
+    rule = R.rule
+    concsuite.run_conc(R, ctx, "hash-addrem", ['addrem'], (2, 12), race=False)
+    R.rule = rule + " Concurrent scenario(s) addrem of the conc engine (see C05): the family's containers under concurrent clients, verdict by invariants that need no history search."
 
 def replay(R, payload):
+    if payload.get("engine") == "conc":
+        return concsuite.replay_conc(R, payload)
     return core.generic_replay(R, payload)
